@@ -478,8 +478,14 @@ class DBSessionContextManager(object):
                 try: can_commit = db_session.allowed_exceptions(exc)
                 except: rollback_and_reraise(sys.exc_info())
             if can_commit:
-                commit()
-                for cache in _get_caches(): cache.release()
+                try: commit()
+                except:
+                    # after a partial commit the caches that did commit are still open
+                    exc_info = sys.exc_info()
+                    try: db_session._release_caches()
+                    except: pass
+                    reraise(*exc_info)
+                db_session._release_caches()
                 assert not local.db2cache
             else:
                 try: rollback()
@@ -490,6 +496,15 @@ class DBSessionContextManager(object):
             local.db_session = None
             local.user_groups_cache.clear()
             local.user_roles_cache.clear()
+    @staticmethod
+    def _release_caches():
+        # a failure to release one connection must not leave the other caches (and their connections) behind
+        exc_info = None
+        for cache in _get_caches():
+            try: cache.release()
+            except:
+                if exc_info is None: exc_info = sys.exc_info()
+        if exc_info is not None: reraise(*exc_info)
     def _wrap_function(db_session, func):
         def new_func(func, *args, **kwargs):
             if local.db_context_counter:
